@@ -323,14 +323,35 @@ Definition re_start (w : worker) (v : nat) (todo : list (nat * Z)) : worker :=
   | _ => set_pc w (PReNbr v todo)
   end.
 
+(* The arithmetic of the vertex-weight type W of arc_swap.  Weights are carried as [Z]: the value
+   itself for W = i64 ([wops_Z], the instance every statement without an explicit instance is
+   about), the IEEE bit pattern for W = f64 ([wops_f64] in Model/ArcSwapF64.v).  Only the balance
+   test, the thread-local weight updates, thread_max and the merge use it. *)
+Class wops := mkWops {
+  w_add : Z -> Z -> Z;
+  w_sub : Z -> Z -> Z;
+  w_ltb : Z -> Z -> bool;          (* a < b *)
+  w_zero : Z;
+  w_scale : Z -> Z -> Z            (* W::from_usize(n).unwrap() * x *)
+}.
+#[global] Instance wops_Z : wops := mkWops Z.add Z.sub Z.ltb 0 Z.mul.
+
+(* compute_parts_load in the weight type (for exact sums the order of the additions is irrelevant) *)
+Fixpoint wload {W : wops} (vw : list Z) (p : list nat) (q : nat) : Z :=
+  match vw, p with
+  | w :: vw', x :: p' => w_add (if Nat.eqb x q then w else w_zero) (wload vw' p' q)
+  | _, _ => w_zero
+  end.
+Definition wloads {W : wops} (vw : list Z) (p : list nat) (k : nat) : list Z := map (wload vw p) (seq 0 k).
+
 (* all targets evaluated: gain / balance tests of make_move *)
-Definition decide (cf : config) (tmax : list Z) (w : worker) (v ip : nat) (b : nat * Z) : option worker :=
+Definition decide {W : wops} (cf : config) (tmax : list Z) (w : worker) (v ip : nat) (b : nat * Z) : option worker :=
   let '(bt, bg) := b in
   if bg <=? 0 then Some (set_pc (set_md w (md_no_gain (w_md w))) (PUnlock v UNoMove))
   else
     match nth_opt (cf_vw cf) v, nth_opt (w_pw w) bt, nth_opt tmax bt with
     | Some wv, Some pwt, Some mx =>
-        if mx <? wv + pwt then Some (set_pc (set_md w (md_bad_bal (w_md w))) (PUnlock v UNoMove))
+        if w_ltb mx (w_add wv pwt) then Some (set_pc (set_md w (md_bad_bal (w_md w))) (PUnlock v UNoMove))
         else Some (set_pc w (PStore v ip bt bg))
     | _, _, _ => None
     end.
@@ -338,7 +359,7 @@ Definition decide (cf : config) (tmax : list Z) (w : worker) (v ip : nat) (b : n
 Definition b2n (b : bool) : nat := if b then 1%nat else 0%nat.
 
 (* one access of worker [w] on the shared [locks] and [part] *)
-Definition wstep (cf : config) (tmax : list Z) (locks : list bool) (part : list nat) (w : worker)
+Definition wstep {W : wops} (cf : config) (tmax : list Z) (locks : list bool) (part : list nat) (w : worker)
   : option (list bool * list nat * worker) :=
   let g := cf_g cf in
   match w_pc w with
@@ -413,10 +434,10 @@ Definition wstep (cf : config) (tmax : list Z) (locks : list bool) (part : list 
       match nth_opt (cf_vw cf) v, nth_opt (w_pw w) ip, nth_opt (w_pw w) tg with
       | Some wv, Some a, Some _ =>
         if Nat.ltb v (length part) then
-          let pw1 := set_nth (w_pw w) ip (a - wv) in
+          let pw1 := set_nth (w_pw w) ip (w_sub a wv) in
           match nth_opt pw1 tg with
           | Some b =>
-            let pw2 := set_nth pw1 tg (b + wv) in
+            let pw2 := set_nth pw1 tg (w_add b wv) in
             Some (locks, set_nth part v tg,
                   mkW (PUnlock v UMoved) (w_cur w) (w_end w) (w_cut w) pw2 (md_move gn (w_md w)))
           | None => None
@@ -488,12 +509,12 @@ Definition init_workers (cf : config) (pw : list Z) : list worker :=
   map (init_worker cf pw) (seq 0 (cf_tc cf)).
 
 (* thread_max_pws: pw + from_f64((max_part_weight - pw) / thread_count) *)
-Fixpoint thread_max (cf : config) (pw : list Z) : option (list Z) :=
+Fixpoint thread_max {W : wops} (cf : config) (pw : list Z) : option (list Z) :=
   match pw with
   | [] => Some []
   | x :: t =>
-    match cf_hr cf (cf_cap cf - x) (cf_tc cf), thread_max cf t with
-    | Some h, Some r => Some ((x + h) :: r)
+    match cf_hr cf (w_sub (cf_cap cf) x) (cf_tc cf), thread_max cf t with
+    | Some h, Some r => Some (w_add x h :: r)
     | _, _ => None
     end
   end.
@@ -502,19 +523,19 @@ Definition all_done (ws : list worker) : bool :=
   forallb (fun w => match w_pc w with PDone => true | _ => false end) ws.
 
 (* reduce: element-wise sum of the thread-local part weights, from a zero vector *)
-Fixpoint vec_add (a b : list Z) : list Z :=
-  match a, b with x :: a', y :: b' => (x + y) :: vec_add a' b' | _, _ => [] end.
-Definition pw_sum (k : nat) (ws : list worker) : list Z :=
-  fold_right (fun w acc => vec_add acc (w_pw w)) (repeat 0 k) ws.
+Fixpoint vec_add {W : wops} (a b : list Z) : list Z :=
+  match a, b with x :: a', y :: b' => w_add x y :: vec_add a' b' | _, _ => [] end.
+Definition pw_sum {W : wops} (k : nat) (ws : list worker) : list Z :=
+  fold_right (fun w acc => vec_add acc (w_pw w)) (repeat w_zero k) ws.
 (* PW <- (sum_i tPW_i) - (thread_count - 1) * PW *)
-Fixpoint pw_merge (tc : nat) (sum pw : list Z) : list Z :=
+Fixpoint pw_merge {W : wops} (tc : nat) (sum pw : list Z) : list Z :=
   match sum, pw with
-  | s :: sum', x :: pw' => (s - (Z.of_nat tc - 1) * x) :: pw_merge tc sum' pw'
+  | s :: sum', x :: pw' => w_sub s (w_scale (Z.of_nat tc - 1) x) :: pw_merge tc sum' pw'
   | _, _ => []
   end.
 
 (* end of a pass: merge, then either leave the outer loop or start the next pass *)
-Definition end_pass (cf : config) (st : gstate) : option gstate :=
+Definition end_pass {W : wops} (cf : config) (st : gstate) : option gstate :=
   let pmd := fold_right (fun w acc => md_merge acc (w_md w)) md_zero (g_ws st) in
   let pw' := pw_merge (cf_tc cf) (pw_sum (cf_k cf) (g_ws st)) (g_pw st) in
   let md' := md_merge (g_md st) pmd in
@@ -526,7 +547,7 @@ Definition end_pass (cf : config) (st : gstate) : option gstate :=
     | Some tm => Some (mkG (g_locks st) (g_part st) (init_workers cf pw') pw' tm (md_passes md') false)
     end.
 
-Definition step (cf : config) (st : gstate) (tid : nat) : option gstate :=
+Definition step {W : wops} (cf : config) (st : gstate) (tid : nat) : option gstate :=
   if g_fin st then None
   else
     match nth_opt (g_ws st) tid with
@@ -541,15 +562,15 @@ Definition step (cf : config) (st : gstate) (tid : nat) : option gstate :=
     end.
 
 (* a schedule = the sequence of workers chosen by the scheduler *)
-Fixpoint run (cf : config) (st : gstate) (sch : list nat) : option gstate :=
+Fixpoint run {W : wops} (cf : config) (st : gstate) (sch : list nat) : option gstate :=
   match sch with
   | [] => Some st
   | t :: r => match step cf st t with Some st' => run cf st' r | None => None end
   end.
 
 (* arc_swap's prologue for the initial partition [p0] *)
-Definition init_state (cf : config) (p0 : list nat) : option gstate :=
-  let pw := loads (cf_vw cf) p0 (cf_k cf) in
+Definition init_state {W : wops} (cf : config) (p0 : list nat) : option gstate :=
+  let pw := wloads (cf_vw cf) p0 (cf_k cf) in
   match thread_max cf pw with
   | None => None
   | Some tm =>
@@ -587,7 +608,7 @@ Definition akind_eqb (a b : akind) : bool :=
   end.
 
 (* every recorded event must be the enabled next access of its task, with the same value *)
-Fixpoint replay (cf : config) (st : gstate) (tr : list event) : option gstate :=
+Fixpoint replay {W : wops} (cf : config) (st : gstate) (tr : list event) : option gstate :=
   match tr with
   | [] => Some st
   | e :: r =>
@@ -621,10 +642,22 @@ Definition headroom_checked (d : Z) (tc : nat) : option Z :=
   | None => None
   end.
 
+(* the per-thread share of arc_swap for W = i64, by the form of the source (Gen/ArcSwapGen.v:
+   arcswap_share_in_W): divided in W = the exact truncating quotient, or through f64 *)
+Definition share_i64 (in_W : bool) : Z -> nat -> option Z := if in_W then headroom_quot else headroom_f64.
+(* what the runs use: the f64 form only where it is the exact quotient (cross-check) *)
+Definition share_i64_run (in_W : bool) : Z -> nat -> option Z := if in_W then headroom_quot else headroom_checked.
+
 (* never more than a 1/tc share of a headroom, never a positive share of a negative one *)
 Definition hr_ok (cf : config) : Prop :=
   forall d h, cf_hr cf d (cf_tc cf) = Some h ->
     (0 <= d -> 0 <= h /\ Z.of_nat (cf_tc cf) * h <= d) /\ (d <= 0 -> h <= 0).
+
+(* the same, asked only of the operands that arise (cap minus the load of a part, loads being
+   between 0 and the total weight), and up to a total over-allocation of [slack] per part *)
+Definition hr_ok_on (cf : config) (slack : Z) : Prop :=
+  forall d h, cf_cap cf - sumZ (cf_vw cf) <= d <= cf_cap cf -> cf_hr cf d (cf_tc cf) = Some h ->
+    (0 <= d -> 0 <= h /\ Z.of_nat (cf_tc cf) * h <= d + slack) /\ (d <= 0 -> h <= 0).
 
 (* an undirected weighted multigraph on the vertices 0..n-1 *)
 Record graph_ok (g : graph) : Prop := {
